@@ -5,6 +5,11 @@
 
 #include <algorithm>
 
+// (one definition per binary: see sim/rt_main.cpp)
+extern "C" uint64_t qsim_step_scale() {
+    return Qentem::Config::IsSIMDEnabled ? 1 : 16;
+}
+
 QH_BEGIN
 namespace qw {
 namespace seq {
